@@ -56,6 +56,8 @@ pub open spec fn range_ok(start: int, end: int, step: int) -> bool {
     step != 0 && !(step > 0 && start >= end) && !(step < 0 && start <= end)
 }
 
+// @@INCLUDE stdx@@
+
 // @@EXTRACTED@@
 
 } // verus!
